@@ -176,6 +176,19 @@ fn run_sched(args: &[String]) -> i32 {
             }
         }
     }
+    // C02, "a step with no matching definition is Skipped" and nothing else is: definitions
+    // registered one by one through `runner::Basic::given / when / then` (also on clones) sit
+    // under the keyword they were registered for
+    if prop == "C02" && si == 2 % sn {
+        for (key, msg) in vcore::zoo::c17_runner_registration() {
+            violations.push(json!({
+                "property": prop, "family": "runner-registration", "index": 0, "tier": tier_s,
+                "extra": "runner-registration", "schedule": [], "key": key, "message": msg,
+                "finding": serde_json::Value::Null, "deterministic": true,
+            }));
+        }
+        extras += 4;
+    }
     // options given through `Cucumber::with_cli()` survive the Cucumber-level builder methods
     if si == 1 % sn {
         for (p, key, msg) in vcore::order::run_children() {
@@ -475,6 +488,13 @@ fn run_replay(args: &[String]) -> i32 {
         let vs = vcore::order::run_children();
         for (p, k, m) in &vs {
             println!("violation {p} [{k}]: {m}");
+        }
+        return i32::from(!vs.is_empty());
+    }
+    if j["extra"].as_str() == Some("runner-registration") {
+        let vs = vcore::zoo::c17_runner_registration();
+        for (k, m) in &vs {
+            println!("violation C02 [{k}]: {m}");
         }
         return i32::from(!vs.is_empty());
     }
